@@ -190,4 +190,15 @@ def generated():
         'select * from (select * from int1.t1) as s join mindsdb.pred as m',
         'select * from int1 (select * from t1) as s join mindsdb.pred as m',
     ]
+    # clauses of the outer query whose items are not plain columns (ordinals, functions, arithmetic, signs, predicates)
+    for frm in ('int1.t1 as t1 join mindsdb.pred as m', 'int1.t1 as t1 left join int2.t2 as t2 on t1.a = t2.a',
+                'int1.t1 as t1 join int2.t2 as t2 on t1.a = t2.a', 'int1.t1 as t1 join mindsdb.tp as m'):
+        for tail in ('order by 1', 'order by lower(t1.a)', 'order by t1.a * 2 desc', 'order by -t1.a', 'order by t1.a is null, t1.b',
+                     'order by t1.a limit 2', 'order by 2 limit 1 offset 1', 'group by t1.a order by count(*)',
+                     'group by t1.a having count(*) > 1', 'order by case when t1.a > 1 then 1 else 0 end', 'limit 0', 'order by t1.a nulls first'):
+            q.append('select t1.a, t1.b from %s %s' % (frm, tail))
+    # shapes that earlier rounds of seeding found to end in internal errors on the unmodified tree (kept as regression inputs)
+    q += ['with a as (select * from int1.t1 as t1 join mindsdb.pred as m) select * from a where a.x in (select x from a)',
+          'select * from (select * from int1.t1 as t1 join int2.t2 as t2 on t1.a = t2.a) as s join mindsdb.tp as m',
+          'select * from int1.t1 as t1 join mindsdb.pred as m join mindsdb.tp as m2']
     return q
